@@ -817,7 +817,7 @@ def s_clientid(rep, W, rule="S-CLIENTID"):
                 rep.ob(rule, (fn, ordinal_key(body, d, bb), "client-arg"), len(a) > 1 and a[1] == cid,
                        "client id passed to Server::%s is %s; must be the validated header value %s" % (d.split("::")[-1], P.show(a[1]) if len(a) > 1 else "?", P.show(cid)),
                        where(body, bb))
-    rep.floor(rule, "Server::* call sites in handlers", n, 5)
+    rep.floor(rule, "Server::* call sites in handlers", n, 4)
     # the helper: Ok payload is parse_str(to_str(headers.get(CLIENT_ID_HEADER)))
     hb = W.body(WD.CLIENT_ID_HEADER_FN)
     fn = short_fn(hb)
